@@ -111,6 +111,9 @@ class Module:
             if "contextmanager" in source:
                 self.inlined += expand_context_managers(self.tree, set(KNOWN.get(name, [])))
             self.inlined += normalise_new(self.tree, set(KNOWN.get(name, [])) | renamed_known, foreign_attrs, set(SHAPES))
+            from .inline import simplify
+
+            self.inlined += ["simplified: " + x for x in simplify(self.tree)]
         self.imports: Dict[str, str] = {}
         self.funcs: Dict[str, "Func"] = {}
         self.classes: Dict[str, "Class"] = {}
